@@ -19,7 +19,7 @@ EXPLANATION = (
     "the old text (bound before the store) after it, on every path; (3) INV for the Edit family's mutators and RET for its keypress family (unused keys come back unchanged); "
     "(4) character-boundary moves: on the left / right / backspace / delete branches the position handed to set_edit_pos and the slice bounds of the new text are results of "
     "move_prev_char / move_next_char; (5) every text replacement resets the remembered preferred column (set_edit_text reaches the edit_pos setter or a pref_col_maxcol reset on all paths); "
-    "(6) ALPHABET: valid_char of the numeric variants admits a character only under a membership test in a finite alphabet (or equality with '-'), never a Unicode predicate."
+    "(7) cursor coordinates and click positions are computed on the same text the layout was built from (self.get_text()[0], i.e. the masked text when a mask is set); (6) ALPHABET: valid_char of the numeric variants admits a character only under a membership test in a finite alphabet (or equality with '-'), never a Unicode predicate."
 )
 NOT_DECIDED = "Equality with the reference editor: row moves, preferred-column arithmetic, clip-mode view shift, click-to-offset mapping, leading-zero trimming arithmetic of IntEdit/NumEdit."
 ASSUMPTIONS = []
@@ -241,6 +241,29 @@ def rule_alphabet(ctx: Ctx) -> RuleResult:
     return rr
 
 
+def rule_same_text(ctx: Ctx) -> RuleResult:
+    """Edit lays out get_text() (caption + edit text, or the mask characters).  Offsets of that layout only mean
+    something on the very text that was laid out: every calc_coords / calc_pos call must be given self.get_text()[0]."""
+    p = ctx.p
+    rr = RuleResult("SIB", "C10.7", "Edit measures cursor coordinates / positions on the same text its layout was computed from (self.get_text()[0])", floor=2)
+    cls = p.cls(E)
+    n = 0
+    for fi in p.all_class_functions(cls):
+        du = None
+        for c in fi.own_nodes():
+            if isinstance(c, ast.Call) and callee_name(c) in ("calc_coords", "calc_pos") and len(c.args) >= 2:
+                du = du or DefUse(fi)
+                at = du.node_of(c)
+                txt = ast.unparse(du.expand(c.args[0], at)) if at is not None else ast.unparse(c.args[0])
+                n += 1
+                rr.inst(f"{short(fi)}:{norm(c, 50)}", True, {"function": short(fi), "call": norm(c, 60), "text_argument": txt})
+                if txt not in ("self.get_text()[0]",):
+                    rr.add(finding("SIB", fi, c, f"`{norm(c, 60)}` applies the layout to `{txt}`, not to self.get_text()[0] - the text the layout was computed from: with a mask (or any display text that differs from caption + edit_text) column widths are measured on other characters and the cursor is drawn in the wrong cell", construct=f"layout applied to {txt}"))
+    if n < 2:
+        raise AnalysisError("Edit: calc_coords / calc_pos calls not found")
+    return rr
+
+
 def run(ctx: Ctx):
     p = ctx.p
     return [
@@ -251,6 +274,7 @@ def run(ctx: Ctx):
         rule_char_moves(ctx),
         rule_pref_col_reset(ctx),
         rule_alphabet(ctx),
+        rule_same_text(ctx),
     ]
 
 
@@ -269,6 +293,7 @@ MUTANTS = [
     Mut("set-mask-no-invalidate", _F, "Edit.set_mask", "        self._mask = mask\n        self._invalidate()", "        self._mask = mask", "INV|widget.edit.Edit.set_mask"),
     Mut("intedit-unicode-digits", _F, "IntEdit.valid_char", "return len(ch) == 1 and ch in string.digits", "return len(ch) == 1 and ch.isdigit()", "ALPHABET|widget.edit.IntEdit.valid_char"),
     Mut("setpos-keeps-pref-col", _F, "Edit.set_edit_pos", "        self.pref_col_maxcol = None, None\n        self._edit_pos = pos", "        self._edit_pos = pos", "PASS|widget.edit.Edit.set_edit_pos"),
+    Mut("coords-on-unmasked-text", _F, "Edit.position_coords", "x, y = text_layout.calc_coords(self.get_text()[0], trans, p)", "x, y = text_layout.calc_coords(self.caption + self.edit_text, trans, p)", "SIB|widget.edit.Edit.position_coords"),
     Mut("twin-conditional-reclamp", _F, "Edit.set_edit_text", "        self.edit_pos = min(self.edit_pos, len(text))\n", "        if self._edit_pos > len(text):\n            self.edit_pos = len(text)\n        self.pref_col_maxcol = None, None\n", twin=True),
     Mut("twin-clamp-reordered", _F, "Edit.set_edit_pos", "pos = min(max(pos, 0), len(self._edit_text))", "pos = max(0, min(pos, len(self._edit_text)))", twin=True),
     Mut("twin-left-local-renamed", _F, "Edit.keypress", "            pos = move_prev_char(self.edit_text, 0, pos)\n            self.set_edit_pos(pos)\n            return None\n\n        if self._command_map[key] == Command.RIGHT:", "            new_pos = move_prev_char(self.edit_text, 0, pos)\n            self.set_edit_pos(new_pos)\n            return None\n\n        if self._command_map[key] == Command.RIGHT:", twin=True),
